@@ -100,7 +100,7 @@ func vdata(i int) map[string]interface{} {
 //
 //	star(n):   centre "c" (label C), leaves "l<i>" (label L), edges c -> l<i>        i < n
 //	chain(n):  "v<i>" (label L) i < n, edges v<i> -> v<i+1>                            i < n-1
-//	bip(n,m):  "a<i>" (label A) i < n, "b<j>" (label B) j < m, edges a<i> -> b<j>      all pairs
+//	bip(n,m):  "a<i>" (label L) i < n, "b<j>" (label R) j < m, edges a<i> -> b<j>      all pairs
 func generate(g map[string]interface{}, out chan<- *gdbi.GraphElement) error {
 	n, m := num(g, "n"), num(g, "m")
 	name := GraphName(g)
@@ -128,10 +128,10 @@ func generate(g map[string]interface{}, out chan<- *gdbi.GraphElement) error {
 		}
 	case "bip":
 		for i := 0; i < n; i++ {
-			v("a"+strconv.Itoa(i), "A", i)
+			v("a"+strconv.Itoa(i), "L", i)
 		}
 		for j := 0; j < m; j++ {
-			v("b"+strconv.Itoa(j), "B", j)
+			v("b"+strconv.Itoa(j), "R", j)
 		}
 		for i := 0; i < n; i++ {
 			for j := 0; j < m; j++ {
